@@ -22,7 +22,7 @@ RULE = ("part D: get_capabilities() against a unit that serves two pages, the re
         "time and outcome; with r=3 also Device._send_command()==[] and refresh() -> online False on timeout; a quarter of the patterns run with a configured connection lifetime that expires mid-exchange; a quarter with a jump of the host's wall clock (suspend/resume, clock step: -3 s .. +1 h) during the exchange, which the reference model ignores; on V3 a quarter of the patterns with unanswered transmissions have the device emit marker-free bytes instead of staying silent (no response by C04's skipping rule; the reference model is unchanged). an error packet as answer to transmission k ends the exchange with a protocol error after exactly k transmissions, at LAN and device level. Part B "
         "(exhaustive): every single fault and ordered pair from {drop, drop incl. handshake, error packet, error packet also in reply to the re-authentication handshake, garbage, peer close, peer reset (mid-exchange or while idle), graceful close by the peer while idle (FIN: the transport asks the protocol's eof_received() as asyncio does), an answer followed by the peer's FIN, the unit coming back under a new address while configured by host name, "
         "connect refused, connect hangs, cancel at each protocol phase} x {V2,V3} x {fresh object, established connection}, "
-        "followed by a clean exchange immediately or after a pause, with or without a configured connection lifetime (1..60 s), at LAN level or through AirConditioner.refresh() (on V3 the user's single authenticate() call may have been abandoned during the 1 s settle pause after the handshake): faulty exchange ends within contract (frames / "
+        "followed by a clean exchange immediately or after a pause, with or without a configured connection lifetime (1..60 s), at LAN level or through AirConditioner.refresh() (single-query, or several queries per refresh with energy polling enabled; on V3 the user's single authenticate() call may have been abandoned during the 1 s settle pause after the handshake): faulty exchange ends within contract (frames / "
         "ProtocolError / TimeoutError / cancellation) and the clean exchange returns the device's reply (fresh handshake on V3 "
         "when needed) and refresh() reports online. Part C (Hypothesis): longer random fault sequences, optionally against a unit that hangs up after every answer (FIN/RST, seen after or in the same loop pass as the answer). Non-trivial: >=1 "
         "retransmission, or a fault followed by a successful exchange. Distinct by pattern.")
@@ -289,6 +289,9 @@ def check_faults(case: dict):
             net.resolver["ac.lan"] = "10.0.0.9"
         ac = AC(ip="ac.lan" if by_name else "10.0.0.9", port=6444, device_id=9)
         lan = ac._lan
+        if case.get("energy"):
+            # configuration: refresh() consists of several queries (energy polling on): a fault may hit any one of them
+            ac.enable_energy_usage_requests = True
         leases = {"n": 0, "ip": "10.0.0.9"}
         if case.get("lifetime"):
             # configuration: connections are renewed after this many seconds (recovery must not depend on it)
@@ -638,6 +641,8 @@ def run(ctx) -> None:
                         case["near_wrap"] = 17
                     if m % 4 == 2:
                         case["level"] = "device"
+                        if m % 8 == 2:
+                            case["energy"] = True
                     if m % 3 == 1:
                         case["lifetime"] = [1, 2, 5, 30][(m // 3) % 4]
                     ctx.check(case, lambda c: _run_one(ctx, c))
@@ -649,5 +654,5 @@ def run(ctx) -> None:
         "pause": st.sampled_from([0.0, 0.0, 0.01, 0.04, 0.06, 0.5, 1.2, 3.0, 30.0]),
         "cancel_jitter": st.sampled_from([0.0, 0.0, 0.01, -0.01, 0.025]),
         "garbage": st.binary(min_size=1, max_size=40).map(lambda b: b.hex()), "start": st.sampled_from(["auth", "auth", "auth_cancel_pause"]), "near_wrap": st.sampled_from([0, 0, 0, 17]), "level": st.sampled_from(["lan", "lan", "device"]), "lifetime": st.sampled_from([None, None, 1, 3, 10, 60]),
-        "hangup": st.sampled_from([None, None, None, "fin", "rst", "fin_same", "rst_same"])})
+        "hangup": st.sampled_from([None, None, None, "fin", "rst", "fin_same", "rst_same"]), "energy": st.booleans()})
     ctx.hyp("part C", cases, lambda c: _run_one(ctx, c), ctx.n(1600, 96000))
